@@ -13,7 +13,8 @@ A == ndJsonDeserialize(IOEnv.TRACE)
 B == ndJsonDeserialize(IOEnv.TRACE2)
 VARIABLE l
 Fields == {"e", "g", "to", "ret", "ok", "n", "reads", "ok_rounds", "err", "text", "alt", "src_pos", "src_calls",
-           "set_panic", "err_call", "panic", "no_ret", "obs", "digest", "bytes", "via", "kib", "off", "aborted", "reads_n", "reads_digest", "ok_count", "seeds"}
+           "set_panic", "err_call", "panic", "no_ret", "obs", "digest", "bytes", "via", "kib", "off", "aborted", "reads_n", "reads_digest", "ok_count", "seeds",
+           "err_text", "src_log", "src_log_n", "src_delivered", "src_failed", "src_fill_only", "src_failures"}
 SerdeOnly == {"obs"}       \* absent without the serde feature for the plain types
 Same(a, b) ==
   /\ \A f \in Fields \ SerdeOnly : (f \in DOMAIN a) = (f \in DOMAIN b)
